@@ -125,6 +125,61 @@ def fws_grammar(ginfo):
     return _FWS_CACHE[key]
 
 
+def fws_case(ginfo, rule, tokens=False):
+    """Does known finding F-WS apply to a case with this entry rule?  Verdict / offset: only when the entry rule is a
+    risky skip rule itself or reaches an EXPLICIT reference to one (implicit skipping matches skip rules atomically,
+    like pest).  Tokens: additionally whenever a risky skip rule's body mentions a grammar rule (inner tokens are
+    kept where pest prunes them)."""
+    import corpus
+    key = ("case", ginfo.get("sexp", "")[:80] + str(len(ginfo.get("sexp", ""))))
+    if key not in _FWS_CACHE:
+        info = {"risky": set(), "reach": set(), "inner": False}
+        if _fws_grammar(ginfo):
+            sx = corpus.parse_sexp(ginfo["sexp"])
+            rules = {r[1]: r for r in sx[2:]}
+
+            def risky(e):
+                if isinstance(e, list):
+                    if e[0] in ("seq", "rep", "reponce", "repexact", "repmin", "repmax", "repminmax"):
+                        return True
+                    if e[0] == "ident" and e[1] in rules:
+                        return True
+                    return any(risky(c) for c in e[1:])
+                return False
+
+            def idents(e, out):
+                if isinstance(e, list):
+                    if e[0] == "ident":
+                        out.add(e[1])
+                    for c in e[1:]:
+                        idents(c, out)
+            for n in ("WHITESPACE", "COMMENT"):
+                if n in rules and rules[n][2] not in ("atomic", "compound") and risky(rules[n][3]):
+                    info["risky"].add(n)
+                    ids = set()
+                    idents(rules[n][3], ids)
+                    if ids & set(rules):
+                        info["inner"] = True
+            refs = {}
+            for n, r in rules.items():
+                ids = set()
+                idents(r[3], ids)
+                idents(r[4], ids)
+                refs[n] = ids & set(rules)
+            reach = set(info["risky"])
+            changed = True
+            while changed:
+                changed = False
+                for n in rules:
+                    if n not in reach and refs[n] & reach:
+                        reach.add(n)
+                        changed = True
+            info["reach"] = reach
+        _FWS_CACHE[key] = info
+    info = _FWS_CACHE[key]
+    return rule in info["reach"] or (tokens and info["inner"])
+
+
 def _fws_grammar(ginfo):
     """F-WS root cause: a WHITESPACE/COMMENT rule that is not declared @/$ and whose body contains
     a sequence, a repetition or a rule reference (pest forces such bodies atomic, pest-typed does not)."""
@@ -175,7 +230,7 @@ def threeway(ctx, res, want_tokens, gid_filter=None, want_stack=False):
         sp = spec.split(":", 2)
         exp_v, exp_end = ("ok", sp[1]) if sp[0] == "ok" else ("fail", None)
         pest = io.get("pest")
-        fws = fws_grammar(ginfo)
+        fws = fws_case(ginfo, c[1])
         if pest is not None:
             if pest == "panic":
                 stats["pest_panic"] += 1
@@ -204,8 +259,9 @@ def threeway(ctx, res, want_tokens, gid_filter=None, want_stack=False):
             ptoks = prune(parse_tokens(pest.split(":", 2)[2]), atomic)
             itoks = parse_tokens(io.get("tok", "[]"))
             if ptoks != itoks:
-                ctx.violation("token tree differs from pest's pruned tree" + (" [skip rule not atomic]" if fws else ""), c,
-                              impl=io.get("tok"), expected=pest.split(":", 2)[2], fws=fws)
+                fwst = fws_case(ginfo, c[1], tokens=True)
+                ctx.violation("token tree differs from pest's pruned tree" + (" [skip rule not atomic]" if fwst else ""), c,
+                              impl=io.get("tok"), expected=pest.split(":", 2)[2], fws=fwst)
     ctx.coverage.setdefault("distribution", {}).update(stats)
 
 
@@ -389,6 +445,22 @@ def check_C04(ctx):
                           impl=fio.get("v"), expected="ok" if exp else "fail", partial={k: pio.get(k) for k in ("v", "end")})
         elif got and fio.get("tok") != pio.get("tok"):
             ctx.violation("try_parse returns a different tree than try_parse_partial", c, full=fio.get("tok"), partial=pio.get("tok"))
+    # sub-inputs: a prefix parse that already ends at the end of a Span / Position input must not be rejected by
+    # the full entry point of an atomic rule (no trailing skip there), and an accepted full parse implies an
+    # accepted prefix parse with the same tree
+    for key, ent in group_by_input(res, lambda c: c[3] in ("span", "pos")).items():
+        if "parse" not in ent or "parse_partial" not in ent:
+            continue
+        (c, fio, _), (_, pio, _) = ent["parse"], ent["parse_partial"]
+        ginfo = res.grammars[c[0]]
+        kind = dict(ginfo["rules"]).get(c[1])
+        hi = c[5] if c[3] == "span" else len(c[6].encode("utf-8"))
+        ctx.count(c, pio.get("v") == "ok")
+        if fio.get("v") == "ok" and (pio.get("v") != "ok" or fio.get("tok") != pio.get("tok")):
+            ctx.violation("try_parse on a sub-input accepts but the prefix parse fails or returns another tree", c)
+        elif pio.get("v") == "ok" and int(pio["end"]) == hi and fio.get("v") != "ok":
+            ctx.violation("try_parse rejects a sub-input whose prefix parse already ends at the end of the input", c,
+                          partial={k: pio.get(k) for k in ("v", "end")}, kind=kind)
     ctx.coverage.setdefault("distribution", {}).update(hist)
 
 
